@@ -45,7 +45,7 @@ def make(rng):
 
 
 def run(ctx):
-    sf = env.load_selfies()
+    sf = env.varied(env.load_selfies(), ctx)
     hooks.attach_m6()
     rng = ctx.rng
     quick = ctx.tier == "quick"
